@@ -477,7 +477,8 @@ namespace occa {
                               const occa::memory src,
                               const occa::json &props) {
     memory mem = malloc(entries, dtype, NULL, props);
-    if (entries && src.size()) {
+    // (byte_size, not size: a source shorter than one element of its dtype still has bytes to copy)
+    if (entries && src.byte_size()) {
       mem.copyFrom(src);
     }
     return mem;
